@@ -1771,12 +1771,16 @@ def _update_at_(
     if is_tensorclass(input_dict_or_td):
         input_dict_or_td = input_dict_or_td._tensordict
 
+    kwargs = {}
+    if keys_to_update is not None:
+        # LazyStackedTensorDict.update_at_ has no keys_to_update parameter
+        kwargs["keys_to_update"] = keys_to_update
     self._tensordict.update_at_(
         input_dict_or_td,
         index,
         clone=clone,
-        keys_to_update=keys_to_update,
         non_blocking=non_blocking,
+        **kwargs,
     )
     return self
 
